@@ -29,11 +29,43 @@ use crate::{
     AvroResult, Codec, Error,
     decode::{decode, decode_internal},
     error::Details,
-    schema::{Names, Schema, resolve_names, resolve_names_with_schemata},
+    schema::{Names, NamespaceRef, Schema, resolve_names, resolve_names_with_schemata},
     serde::deser_schema::{Config, SchemaAwareDeserializer},
     types::Value,
     util,
 };
+
+/// Collect the named schemas that are defined inside `schema`.
+fn own_definitions(schema: &Schema, enclosing_namespace: NamespaceRef, names: &mut Names) {
+    match schema {
+        Schema::Array(array) => own_definitions(&array.items, enclosing_namespace, names),
+        Schema::Map(map) => own_definitions(&map.types, enclosing_namespace, names),
+        Schema::Union(union) => {
+            for variant in union.variants() {
+                own_definitions(variant, enclosing_namespace, names);
+            }
+        }
+        Schema::Record(record) => {
+            let name = record
+                .name
+                .fully_qualified_name(enclosing_namespace)
+                .into_owned();
+            let namespace = name.namespace().map(ToString::to_string);
+            if names.insert(name, schema.clone()).is_none() {
+                for field in &record.fields {
+                    own_definitions(&field.schema, namespace.as_deref(), names);
+                }
+            }
+        }
+        Schema::Ref { .. } => {}
+        named => {
+            if let Some(name) = named.name() {
+                let name = name.fully_qualified_name(enclosing_namespace).into_owned();
+                names.insert(name, named.clone());
+            }
+        }
+    }
+}
 
 /// Internal Block reader.
 #[derive(Debug, Clone)]
@@ -282,6 +314,11 @@ impl<'r, R: Read> Block<'r, R> {
             )?;
             self.names_refs = names.into_iter().map(|(n, s)| (n, s.clone())).collect();
             self.writer_schema = Schema::parse_with_names(&json, self.names_refs.clone())?;
+            // The given schemata supply the types the writer schema refers to without defining
+            // them. What it defines itself is what the data was written with.
+            let mut own = HashMap::new();
+            own_definitions(&self.writer_schema, None, &mut own);
+            self.names_refs.extend(own);
         } else {
             self.writer_schema = Schema::parse(&json)?;
             let mut names = HashMap::new();
